@@ -1,36 +1,41 @@
 (* C06 - control machines for the stream item queue, the executor's work-finished hook and
    the subscription's aclosing.  Definitions only; proofs in LifecycleProps.v.
 
-   StreamItemQueue (execution/incremental/stream_item_queue.py): control flags and counters only.
-   NOT modelled: the bounded entries queue (capacity), hence the producer parked on a full queue and
-   _settle_parked; the consumer's batching.  These are explored on the implementation only.
-   The machine describes the REPAIRED behaviour for on_abort: every call site goes through [call_cb],
-   which calls the callback at most once (flag [cleaned]). *)
+   StreamItemQueue (execution/incremental/stream_item_queue.py): control flags, the occupancy of the
+   bounded entries queue and the counters.  Steps are "macro" steps: QTick lets the event loop run until
+   nothing is runnable.  NOT modelled: the content of the entries (batching, _stopped).  A consumer takes
+   entries either explicitly (QDrain, any time) or, when no item future is pending, at every QTick.
+   Every call site of on_abort goes through [call_cb] (= _run_on_abort, flag _cleaned). *)
 From GV Require Import Base.Prelude.
 
-Record qconf := { q_eager : bool; q_has_cb : bool; q_cb_async : bool }.
+Record qconf := { q_eager : bool; q_has_cb : bool; q_cb_async : bool; q_cap : nat }.
 
-(* producer task: not created / inside produce() / produce() raised and _run waits for the earlier
-   pending items / task finished *)
-Inductive prod := PNone | PRun | PFailWait | PDone.
+(* producer task: not created / inside produce() / blocked in push() on the full queue / produce()
+   raised and _run waits for the earlier pending items / blocked putting the final entry (END or the
+   error) on the full queue / task finished *)
+Inductive prod := PNone | PRun | PBlocked | PFailWait | PParked | PDone.
 
-(* asynchronous continuation returned by abort() and not yet run *)
+(* asynchronous continuation returned by abort() and not yet run: _cleanup / _settle_parked *)
 Inductive due := DNone | DCleanup | DSettle.
 
 Record qstate := mkQ {
   q_prod : prod;
   q_cancel_req : bool;      (* producer_task.cancel() requested, task not finished yet *)
+  q_pcancelled : bool;      (* _producer_cancelled *)
+  q_parked : bool;          (* _producer_parked *)
   q_aborted : bool;         (* _aborted *)
   q_finished : bool;        (* _finished *)
+  q_consuming : bool;       (* batches() is being iterated by a consumer that drains the queue *)
+  q_entries : nat;          (* occupancy of the bounded entries queue *)
   q_pending : nat;          (* |_pending_futures| *)
   q_pend_cancelled : bool;  (* the pending futures have been cancelled, not yet discarded *)
-  q_cleaned : bool;         (* on_abort call site reached (repaired guard) *)
+  q_cleaned : bool;         (* _cleaned: the abort callback has been run *)
   q_cb_calls : nat;         (* calls of the on_abort callback = source close calls *)
   q_due : due
 }.
 
 Inductive qevent :=
-| QStart        (* _start(): eager construction inside a loop, or first consumption *)
+| QStart        (* first consumption: _start() and a consumer draining the queue *)
 | QPushFut      (* producer pushes a still pending item future *)
 | QPush         (* producer pushes a settled item *)
 | QItemSettle   (* one pending item future settles *)
@@ -39,53 +44,115 @@ Inductive qevent :=
 | QFailCancelled (* produce() turns the cancellation requested by abort() into an exception
                     (Executor.with_abort_signal raises the abort reason in place of CancelledError) *)
 | QAbort        (* abort(reason) *)
-| QTick.        (* the event loop runs until nothing is runnable *)
+| QTick         (* the event loop runs until nothing is runnable *)
+| QDrain.       (* the consumer takes every entry that is in the queue *)
 
 Definition qinit (c : qconf) : qstate :=
-  mkQ (if q_eager c then PRun else PNone) false false false 0 false false 0 DNone.
+  mkQ (if q_eager c then PRun else PNone) false false false false false false 0 0 false false 0 DNone.
 
 Definition running (s : qstate) : bool :=
   match q_prod s with PNone | PDone => false | _ => true end.
 
+(* the queue accepts one more entry (capacity 0 = unbounded, as asyncio.Queue) *)
+Definition has_room (c : qconf) (s : qstate) : bool :=
+  Nat.eqb (q_cap c) 0 || Nat.ltb (q_entries s) (q_cap c).
+
+(* _run_on_abort: the abort callback runs at most once in the lifetime of the queue *)
 Definition call_cb (c : qconf) (s : qstate) : qstate :=
   if q_cleaned s then s
-  else mkQ (q_prod s) (q_cancel_req s) (q_aborted s) (q_finished s) (q_pending s) (q_pend_cancelled s)
+  else mkQ (q_prod s) (q_cancel_req s) (q_pcancelled s) (q_parked s) (q_aborted s) (q_finished s)
+           (q_consuming s) (q_entries s) (q_pending s) (q_pend_cancelled s)
            true (if q_has_cb c then S (q_cb_calls s) else q_cb_calls s) (q_due s).
+
+(* put of the final entry (END / error entry): done at once if there is room, else the producer parks *)
+Definition put_final (room : bool) (s : qstate) : qstate :=
+  if room
+  then mkQ PDone (q_cancel_req s) (q_pcancelled s) true (q_aborted s) (q_finished s) (q_consuming s)
+           (S (q_entries s)) (q_pending s) (q_pend_cancelled s) (q_cleaned s) (q_cb_calls s) (q_due s)
+  else mkQ PParked (q_cancel_req s) (q_pcancelled s) true (q_aborted s) (q_finished s) (q_consuming s)
+           (q_entries s) (q_pending s) (q_pend_cancelled s) (q_cleaned s) (q_cb_calls s) (q_due s).
+
+(* 1. a cancelled producer task finishes; cancelled item futures are discarded *)
+Definition settle_cancel (s : qstate) : qstate :=
+  mkQ (if q_cancel_req s then PDone else q_prod s) false (q_pcancelled s) (q_parked s) (q_aborted s)
+      (q_finished s) (q_consuming s) (q_entries s)
+      (if q_pend_cancelled s then 0%nat else q_pending s) false (q_cleaned s) (q_cb_calls s) (q_due s).
+
+(* 2. _run's failure branch proceeds once the earlier items have settled: _aborted, callback, final put *)
+Definition settle_fail (c : qconf) (s : qstate) : qstate :=
+  match q_prod s, q_pending s with
+  | PFailWait, O =>
+      put_final (has_room c s) (call_cb c (mkQ PFailWait (q_cancel_req s) (q_pcancelled s) (q_parked s) true (q_finished s)
+                                  (q_consuming s) (q_entries s) 0 (q_pend_cancelled s) (q_cleaned s)
+                                  (q_cb_calls s) (q_due s)))
+  | _, _ => s
+  end.
+
+(* 3. the continuation returned by abort(): _cleanup cancels a producer that is still running, awaits it
+   and runs the callback; _settle_parked only awaits *)
+Definition settle_due (c : qconf) (s : qstate) : qstate :=
+  match q_due s with
+  | DCleanup =>
+      call_cb c (mkQ (if running s then PDone else q_prod s) false (running s || q_pcancelled s) (q_parked s) true
+                     (q_finished s) (q_consuming s) (q_entries s) 0 false (q_cleaned s)
+                     (q_cb_calls s) DNone)
+  | DSettle => mkQ (q_prod s) (q_cancel_req s) (q_pcancelled s) (q_parked s) (q_aborted s) (q_finished s)
+                   (q_consuming s) (q_entries s) 0 false (q_cleaned s)
+                   (q_cb_calls s) DNone
+  | DNone => s
+  end.
+
+(* 4. a consumer that is not waiting for a pending item drains the queue; a producer blocked on the
+   full queue goes on *)
+Definition settle_queue (c : qconf) (s : qstate) : qstate :=
+  let drains := q_consuming s && Nat.eqb (q_pending s) 0 in
+  let e := if drains then 0%nat else q_entries s in
+  let room := Nat.eqb (q_cap c) 0 || Nat.ltb e (q_cap c) in
+  match q_prod s with
+  | PBlocked => if room
+                then mkQ PRun (q_cancel_req s) (q_pcancelled s) (q_parked s) (q_aborted s) (q_finished s)
+                         (q_consuming s) (if drains then 0%nat else S e) (q_pending s)
+                         (q_pend_cancelled s) (q_cleaned s) (q_cb_calls s) (q_due s)
+                else s
+  | PParked => if room
+               then mkQ PDone (q_cancel_req s) (q_pcancelled s) (q_parked s) (q_aborted s) (q_finished s)
+                        (q_consuming s) (if drains then 0%nat else S e) (q_pending s)
+                        (q_pend_cancelled s) (q_cleaned s) (q_cb_calls s) (q_due s)
+               else s
+  | _ => mkQ (q_prod s) (q_cancel_req s) (q_pcancelled s) (q_parked s) (q_aborted s) (q_finished s)
+             (q_consuming s) e (q_pending s) (q_pend_cancelled s) (q_cleaned s) (q_cb_calls s) (q_due s)
+  end.
 
 (* the event loop settles everything that is runnable *)
 Definition settle (c : qconf) (s : qstate) : qstate :=
-  (* 1. a cancelled producer task finishes; cancelled item futures are discarded *)
-  let p1 := if q_cancel_req s then PDone else q_prod s in
-  let n1 := if q_pend_cancelled s then 0%nat else q_pending s in
-  let s1 := mkQ p1 false (q_aborted s) (q_finished s) n1 false (q_cleaned s) (q_cb_calls s) (q_due s) in
-  (* 2. _run's failure branch proceeds once the earlier items have settled *)
-  let s2 := match q_prod s1, q_pending s1 with
-            | PFailWait, O =>
-                call_cb c (mkQ PDone false true (q_finished s1) 0 false (q_cleaned s1) (q_cb_calls s1) (q_due s1))
-            | _, _ => s1
-            end in
-  (* 3. the continuation returned by abort() *)
-  match q_due s2 with
-  | DCleanup =>
-      call_cb c (mkQ (q_prod s2) false true (q_finished s2) (q_pending s2) false (q_cleaned s2) (q_cb_calls s2) DNone)
-  | DSettle => mkQ (q_prod s2) false (q_aborted s2) (q_finished s2) (q_pending s2) false (q_cleaned s2) (q_cb_calls s2) DNone
-  | DNone => s2
-  end.
+  settle_queue c (settle_due c (settle_fail c (settle_cancel s))).
 
-(* abort(reason): (state, returned an awaitable?) *)
+(* abort(reason): (state, returned an awaitable?) - follows the branches of the method *)
 Definition do_qabort (c : qconf) (s : qstate) : qstate * bool :=
-  if q_aborted s then (s, false)
+  let parked := running s && q_parked s && negb (q_pcancelled s) in
+  (* release the producer parked on the back-pressured queue *)
+  let cr1 := q_cancel_req s || parked in
+  let pc1 := q_pcancelled s || parked in
+  if q_aborted s then
+    (mkQ (q_prod s) cr1 pc1 (q_parked s) true (q_finished s) (q_consuming s) (q_entries s) (q_pending s)
+         (q_pend_cancelled s) (q_cleaned s) (q_cb_calls s)
+         (if parked then match q_due s with DNone => DSettle | d => d end else q_due s), parked)
   else if q_finished s then
-    match q_pending s with
-    | O => (mkQ (q_prod s) (q_cancel_req s) true true 0 (q_pend_cancelled s) (q_cleaned s) (q_cb_calls s) (q_due s), false)
-    | _ => (mkQ (q_prod s) (q_cancel_req s) true true (q_pending s) true (q_cleaned s) (q_cb_calls s) DSettle, true)
-    end
-  else if running s || negb (Nat.eqb (q_pending s) 0)
-  then (mkQ (q_prod s) (running s) true false (q_pending s) (negb (Nat.eqb (q_pending s) 0))
-            (q_cleaned s) (q_cb_calls s) DCleanup, true)
-  else let s' := call_cb c (mkQ (q_prod s) (q_cancel_req s) true false (q_pending s) (q_pend_cancelled s)
-                                (q_cleaned s) (q_cb_calls s) (q_due s)) in
-       (s', q_has_cb c && q_cb_async c).
+    if negb parked && Nat.eqb (q_pending s) 0
+    then (mkQ (q_prod s) cr1 pc1 (q_parked s) true true (q_consuming s) (q_entries s) (q_pending s)
+              (q_pend_cancelled s) (q_cleaned s) (q_cb_calls s) (q_due s), false)
+    else (mkQ (q_prod s) cr1 pc1 (q_parked s) true true (q_consuming s) (q_entries s) (q_pending s)
+              (negb (Nat.eqb (q_pending s) 0)) (q_cleaned s) (q_cb_calls s) DSettle, true)
+  else
+    let cancel_now := running s && negb pc1 in
+    let cr2 := cr1 || cancel_now in
+    let pc2 := pc1 || cancel_now in
+    if negb (running s) && Nat.eqb (q_pending s) 0
+    then let s' := call_cb c (mkQ (q_prod s) cr2 pc2 (q_parked s) true false (q_consuming s) (q_entries s)
+                                  (q_pending s) (q_pend_cancelled s) (q_cleaned s) (q_cb_calls s) (q_due s)) in
+         (s', q_has_cb c && q_cb_async c && negb (q_cleaned s))
+    else (mkQ (q_prod s) cr2 pc2 (q_parked s) true false (q_consuming s) (q_entries s) (q_pending s)
+              (negb (Nat.eqb (q_pending s) 0)) (q_cleaned s) (q_cb_calls s) DCleanup, true).
 
 Definition producing (s : qstate) : bool :=
   match q_prod s with PRun => negb (q_cancel_req s) | _ => false end.
@@ -95,33 +162,42 @@ Definition applicable (s : qstate) (e : qevent) : bool :=
   match e with
   | QStart => true
   | QPushFut | QPush | QFinish | QFail => producing s
-  | QFailCancelled => match q_prod s with PRun => q_cancel_req s | _ => false end
+  | QFailCancelled => match q_prod s with PRun | PBlocked => q_cancel_req s | _ => false end
   | QItemSettle => negb (Nat.eqb (q_pending s) 0) && negb (q_pend_cancelled s)
+  | QDrain => q_consuming s
   | QAbort | QTick => true
   end.
+
+Definition do_push (c : qconf) (s : qstate) (isfut : bool) : qstate :=
+  let n := if isfut then S (q_pending s) else q_pending s in
+  if has_room c s
+  then mkQ PRun (q_cancel_req s) (q_pcancelled s) (q_parked s) (q_aborted s) (q_finished s) (q_consuming s)
+           (S (q_entries s)) n (q_pend_cancelled s) (q_cleaned s) (q_cb_calls s) (q_due s)
+  else mkQ PBlocked (q_cancel_req s) (q_pcancelled s) (q_parked s) (q_aborted s) (q_finished s) (q_consuming s)
+           (q_entries s) n (q_pend_cancelled s) (q_cleaned s) (q_cb_calls s) (q_due s).
 
 Definition qstep (c : qconf) (s : qstate) (e : qevent) : qstate * bool :=
   if negb (applicable s e) then (s, false) else
   match e with
   | QStart =>
-      (match q_prod s with
-       | PNone => if q_aborted s then s
-                  else mkQ PRun (q_cancel_req s) (q_aborted s) (q_finished s) (q_pending s) (q_pend_cancelled s)
-                           (q_cleaned s) (q_cb_calls s) (q_due s)
-       | _ => s
-       end, false)
-  | QPushFut => (mkQ (q_prod s) (q_cancel_req s) (q_aborted s) (q_finished s) (S (q_pending s)) (q_pend_cancelled s)
-                     (q_cleaned s) (q_cb_calls s) (q_due s), false)
-  | QPush => (s, false)
-  | QItemSettle => (mkQ (q_prod s) (q_cancel_req s) (q_aborted s) (q_finished s) (pred (q_pending s))
-                        (q_pend_cancelled s) (q_cleaned s) (q_cb_calls s) (q_due s), false)
-  | QFinish => (mkQ PDone false (q_aborted s) true (q_pending s) (q_pend_cancelled s)
-                    (q_cleaned s) (q_cb_calls s) (q_due s), false)
+      (mkQ (match q_prod s with PNone => if q_aborted s then PNone else PRun | p => p end)
+           (q_cancel_req s) (q_pcancelled s) (q_parked s) (q_aborted s) (q_finished s) true (q_entries s)
+           (q_pending s) (q_pend_cancelled s) (q_cleaned s) (q_cb_calls s) (q_due s), false)
+  | QPushFut => (do_push c s true, false)
+  | QPush => (do_push c s false, false)
+  | QItemSettle => (mkQ (q_prod s) (q_cancel_req s) (q_pcancelled s) (q_parked s) (q_aborted s) (q_finished s)
+                        (q_consuming s) (q_entries s) (pred (q_pending s)) (q_pend_cancelled s) (q_cleaned s)
+                        (q_cb_calls s) (q_due s), false)
+  | QFinish => (put_final (has_room c s) (mkQ PRun (q_cancel_req s) (q_pcancelled s) (q_parked s) (q_aborted s) true
+                                 (q_consuming s) (q_entries s) (q_pending s) (q_pend_cancelled s) (q_cleaned s)
+                                 (q_cb_calls s) (q_due s)), false)
   | QFail | QFailCancelled =>
-      (mkQ PFailWait false (q_aborted s) (q_finished s) (q_pending s) (q_pend_cancelled s)
-           (q_cleaned s) (q_cb_calls s) (q_due s), false)
+      (mkQ PFailWait false (q_pcancelled s) (q_parked s) (q_aborted s) (q_finished s) (q_consuming s)
+           (q_entries s) (q_pending s) (q_pend_cancelled s) (q_cleaned s) (q_cb_calls s) (q_due s), false)
   | QAbort => do_qabort c s
   | QTick => (settle c s, false)
+  | QDrain => (mkQ (q_prod s) (q_cancel_req s) (q_pcancelled s) (q_parked s) (q_aborted s) (q_finished s)
+                   (q_consuming s) 0 (q_pending s) (q_pend_cancelled s) (q_cleaned s) (q_cb_calls s) (q_due s), false)
   end.
 
 Fixpoint qrun (c : qconf) (s : qstate) (es : list qevent) : qstate :=
@@ -142,10 +218,15 @@ Definition quiescent (s : qstate) : bool :=
 Definition due_eqb (a b : due) : bool :=
   match a, b with DNone, DNone | DCleanup, DCleanup | DSettle, DSettle => true | _, _ => false end.
 Definition prod_eqb (a b : prod) : bool :=
-  match a, b with PNone, PNone | PRun, PRun | PFailWait, PFailWait | PDone, PDone => true | _, _ => false end.
+  match a, b with
+  | PNone, PNone | PRun, PRun | PBlocked, PBlocked | PFailWait, PFailWait | PParked, PParked | PDone, PDone => true
+  | _, _ => false
+  end.
 Definition qstate_eqb (a b : qstate) : bool :=
   prod_eqb (q_prod a) (q_prod b) && Bool.eqb (q_cancel_req a) (q_cancel_req b) &&
+  Bool.eqb (q_pcancelled a) (q_pcancelled b) && Bool.eqb (q_parked a) (q_parked b) &&
   Bool.eqb (q_aborted a) (q_aborted b) && Bool.eqb (q_finished a) (q_finished b) &&
+  Bool.eqb (q_consuming a) (q_consuming b) && Nat.eqb (q_entries a) (q_entries b) &&
   Nat.eqb (q_pending a) (q_pending b) && Bool.eqb (q_pend_cancelled a) (q_pend_cancelled b) &&
   Bool.eqb (q_cleaned a) (q_cleaned b) && Nat.eqb (q_cb_calls a) (q_cb_calls b) && due_eqb (q_due a) (q_due b).
 
